@@ -285,7 +285,7 @@ def _job(idx):
     """prove (short budget) -> [cvc5] -> refute (ground) -> prove again (confirm budget) before a refutation is believed"""
     ob = _OBS[idx]
     budget_ms, also_cvc5, refute = _CFG["budget_ms"], _CFG["also_cvc5"], _CFG["refute"]
-    first_ms = min(2000, budget_ms)
+    first_ms = min(5000, budget_ms)
     log = []
     ax = library_axioms(ob.hyps + [ob.goal])
     full = ax + ob.hyps + [z3.Not(ob.goal)]
